@@ -6,7 +6,8 @@ LEVEL = "proof"
 LEAN_MODULE = "Frost.Props.C17"
 THEOREMS = ["Frost.C17.regenerate_eq", "Frost.C17.seed_is_one_draw", "Frost.C17.randomize_keyPackage",
             "Frost.C17.randomize_publicKeyPackage", "Frost.C17.randomized_sign_ok", "Frost.C17.original_key_iff",
-            "Frost.C17.randomizerPreimage_injective", "Frost.C17.randomizer_eq", "Frost.lagBasis_sum_one"]
+            "Frost.C17.randomizerPreimage_injective", "Frost.C17.randomizer_eq", "Frost.lagBasis_sum_one",
+            "Frost.C17.packageRandomizer_eq", "Frost.C17.packagePreimage_injective"]
 RULE = ("one case = one re-randomized signing session (suite, n, t, signer set, message, seed or explicit randomizer incl. zero) with its checks, one tampering of seed/commitment between coordinator and a participant, or one cheater attempt under randomization; "
         "non-trivial = randomized sign/aggregate/verify all ran (valid) or the tampered/cheating run reached aggregation; distinct = hash of (suite, key material, commitments, seed/randomizer, variant)")
 ASSUMPTIONS = ["'does not verify under the original key' and 'tampering changes the randomizer' hold unless hash values coincide (exact iff / injectivity of the preimage proved); applied as implementation oracle on the real suites, as model expectation on the toy suites",
@@ -57,8 +58,17 @@ def session(sess, suite, n, t, kind):
         sess.oracle(not v0.ok, "randomized signature verifies under the original group key", rp())
     # tampering between coordinator and one participant: seed bit / one commitment
     victim = rng.choice(signers)
-    for what in ("seed", "commitment", "hiding commitment only", "binding commitment only"):
-        if what.endswith("only"):
+    for what in ("seed", "commitment", "hiding commitment only", "binding commitment only", "attribution of one commitment pair"):
+        if what.startswith("attribution"):
+            # the same commitment values, in the same order, but the last pair filed under another identifier
+            top = max(signers, key=lambda h: fld.dec(h))
+            nid = fld.enc(fld.dec(top) + 1)
+            if fld.dec(top) + 1 >= fld.q:
+                continue
+            n2 = {(nid if i == top else i): v for i, v in nonces.items()}
+            g2 = sess.call("randomizer %s seed=%s comms=%s" % (suite, seed, comms_str(n2)), EXACT, "randomizer")
+            tz = None
+        elif what.endswith("only"):
             # exactly one of the two commitments of one signer differs (identifier and the other commitment untouched)
             other = rng.choice(signers)
             fresh = nonces_fields(commit(sess, suite, kp_fields(kps[other])["share"]))
@@ -135,6 +145,34 @@ def session(sess, suite, n, t, kind):
                     v = verify(sess, suite, pk["vk"], msg, a3["sig"])
                     sess.oracle(v.ok, "zero randomizer: signature must verify under the original key", rp())
         sess.case("explicit|%s|%s|%s|%d" % (suite, comms, msg, alpha))
+    # the deprecated package-based coordinator entry point (RandomizedParams::new / Randomizer::new): the randomizer is
+    # bound to the whole signing package; replayed coordinator randomness (same tape) + one changed commitment or
+    # a changed message must give another randomizer; the model (hash of scalar || postcard(package)) is compared exactly
+    tp = sess.tape(128)
+    q0 = sess.call("rand_new_pkg %s vk=%s comms=%s msg=%s tape=%s" % (suite, pk["vk"], comms, msg, tp), EXACT, "rand_new_pkg")
+    if sess.oracle(q0.ok, "RandomizedParams::new (package based) failed (%s)" % q0.raw, rp()):
+        other = rng.choice(signers)
+        n2 = dict(nonces)
+        n2[other] = commit(sess, suite, kp_fields(kps[other])["share"])
+        old, fresh = nonces_fields(nonces[other]), nonces_fields(n2[other])
+        n3 = dict(nonces)
+        n3[other] = ":".join([old["hid"], old["bnd"], old["D"], fresh["E"]])
+        for what, c2, m2 in (("one commitment", comms_str(n2), msg), ("one binding commitment", comms_str(n3), msg), ("message", comms, msg + "00")):
+            q1 = sess.call("rand_new_pkg %s vk=%s comms=%s msg=%s tape=%s" % (suite, pk["vk"], c2, m2, tp), EXACT, "rand_new_pkg-changed")
+            if real:
+                sess.oracle(q1.ok and q1["r"] != q0["r"], "package-based randomizer: changing the %s (same coordinator randomness) does not change the randomizer" % what, rp())
+            sess.case("pkgrand|%s|%s|%s|%s" % (suite, what, c2, m2))
+        # signers use the explicit randomizer; the signature verifies under the key the coordinator derived
+        zq, good = {}, True
+        for i in signers:
+            s = sess.call("rand_sign_r %s msg=%s comms=%s nonces=%s kp=%s r=%s" % (suite, msg, comms, nonces[i], kps[i], q0["r"]), CLASS, "rand_sign_r-pkg")
+            good &= sess.oracle(s.ok, "sign with the package-based randomizer failed (%s)" % s.raw, rp())
+            zq[i] = s["z"] if s.ok else None
+        if good:
+            a5 = sess.call("rand_aggregate %s msg=%s comms=%s shares=%s pkp=%s mode=first r=%s" % (suite, msg, comms, shares_str(zq), pkp, q0["r"]), CLASS, "rand_aggregate-pkg")
+            if sess.oracle(a5.ok, "aggregate with the package-based randomizer failed (%s)" % a5.raw, rp()):
+                v = verify(sess, suite, q0["rvk"], msg, a5["sig"])
+                sess.oracle(v.ok, "package-based randomizer: signature does not verify under the randomized key", rp())
     sess.count("suite:" + suite)
     sess.count("n,t=%d,%d" % (n, t))
     sess.case("%s|%s|%s|%s" % (suite, comms, msg, seed), sample={"suite": suite, "n": n, "t": t, "signers": signers, "seed": seed, "randomizer": rand, "sig": sig})
